@@ -2504,10 +2504,12 @@ def convert_to_dnf(formula: Formula, deep: bool = True) -> Formula:
             [
                 reduce(
                     lambda a, b: a & b,
-                    FrozenOrderedSet(split_conjunction(left & right)),
+                    FrozenOrderedSet(
+                        split_conjunction(reduce(lambda a, b: a & b, conjuncts))
+                    ),
                     true(),
                 )
-                for left, right in itertools.product(*disjuncts_list)
+                for conjuncts in itertools.product(*disjuncts_list)
             ],
             false(),
         )
